@@ -146,6 +146,9 @@ class C09(common.Spec):
                     self.set_output(1)             # sends on_output from inside the init task
 
             def calc(v):
+                if circuit.error is not None and not isinstance(circuit.error, asyncio.CancelledError):
+                    # an evaluation although an error has already terminated the simulation
+                    obs['late_evals'] = obs.get('late_evals', 0) + 1
                 if isinstance(v, tuple) and v and v[0] == 'boom':
                     log.append(['src', 'calc', v[1]])
                     raise Tagged(v[1])
@@ -444,6 +447,17 @@ def check(run):
         for e in c['events']:
             run.count('src_' + e[1])
     res = common.standard_flow(run, spec, cases)
+    # 'the first error terminates the simulation': once Circuit.error holds an error nothing is
+    # evaluated any more (e.g. a simulation that starts although its initialisation has failed)
+    # (an abort() from inside the simulation task takes effect at the next await: the evaluation round in
+    # progress is finished; only cases whose error precedes the start of the simulation are judged here)
+    late = [(c, o) for c, o, ch in res if o.get('late_evals') and c.get('sync_init_error')]
+    run.add_obligation(not late)
+    for c, o in late[:1]:
+        run.violation('monitor', dict(case=c, observed={k: v for k, v in o.items() if k != 'log'}),
+                      f"{o['late_evals']} evaluation(s) of combinational blocks took place after an error had "
+                      f"been delivered to the simulator during the initialisation (Circuit.error {o.get('error')}): {c}",
+                      clause='evaluation_after_error', concrete=True)
     for c, o, ch in res:
         run.count('run_' + str(o['run'][0] if o['run'] else None))
         run.count('error_' + str(o['error'][0] if o['error'] else None))
@@ -558,7 +572,15 @@ def check_stop_during_async_init(run, only=None):
 
 
 def replay(run, path):
-    _, case = common.load_replay_case(path)
+    payload, case = common.load_replay_case(path)
+    if payload.get('clause') == 'evaluation_after_error':
+        def again():
+            o = C09().run_impl([case])[0]
+            if o.get('late_evals') and case.get('sync_init_error'):
+                run.violation('monitor', dict(case=case, observed={k: v for k, v in o.items() if k != 'log'}),
+                              f"{o['late_evals']} evaluation(s) after an error had been delivered to the simulator",
+                              clause='evaluation_after_error', concrete=True)
+        return common.directed_replay(run, path, again)
     if isinstance(case, dict) and 'stop_during_async_init' in case:
         return common.directed_replay(run, path,
                                       lambda: check_stop_during_async_init(run, case['stop_during_async_init']))
